@@ -973,7 +973,7 @@ fn run_stream(seed: u64) -> Result<u64, Fail> {
     }
     // ReadStream::eof(): never while the write end exists; once it is gone, exactly when everything has been consumed
     if r.eof() {
-        return Err(fail(t, "C09", "eof-only-when-the-writer-is-gone-and-nothing-is-readable", format!("eof() with the write end alive ({} of {next} samples consumed)", got), seed));
+        return Err(fail(t, "C19+C09", "eof-only-when-the-writer-is-gone-and-nothing-is-readable", format!("eof() with the write end alive ({} of {next} samples consumed)", got), seed));
     }
     drop(w);
     loop {
@@ -982,7 +982,7 @@ fn run_stream(seed: u64) -> Result<u64, Fail> {
         drop(rb);
         let e = r.eof();
         if e != (left == 0) {
-            return Err(fail(t, "C09", "eof-only-when-the-writer-is-gone-and-nothing-is-readable", format!("writer gone, {left} samples readable, eof() says {e}"), seed));
+            return Err(fail(t, "C19+C09", "eof-only-when-the-writer-is-gone-and-nothing-is-readable", format!("writer gone, {left} samples readable, eof() says {e}"), seed));
         }
         if left == 0 { break; }
         let (rb, _tags) = r.read_buf().unwrap();
